@@ -41,48 +41,122 @@ class _Ref:
         self.obj = obj
 
 
+class Machine:
+    """ghost hardware: the MXCSR of the calling thread and the executable page written by __init__"""
+
+    cur = None
+
+    def __init__(self, M):
+        self.M = M
+        self.writes = []
+        self.page = bytearray()
+        self.base = 0x10000
+        self.protected = False
+
+    def thunk(self, addr):
+        off = addr - self.base
+        code = bytes(self.page[off : off + 4])
+        if code == b"\x0f\xae\x17\xc3":  # ldmxcsr [rdi]; ret
+
+            def set_(ref):
+                self.M = ref.obj.value
+                self.writes.append(self.M)
+
+            return set_
+        if code == b"\x0f\xae\x1f\xc3":  # stmxcsr [rdi]; ret
+
+            def get_(ref):
+                ref.obj.value = self.M
+
+            return get_
+        raise symrun.Unsupported("thunk at offset %d is neither `ldmxcsr [rdi]; ret` nor `stmxcsr [rdi]; ret`: %s" % (off, code.hex()))
+
+
+class _Buf:
+    def write(self, b):
+        Machine.cur.page.extend(b)
+
+
+class MmapShadow:
+    PAGESIZE = 4096
+    PROT_READ, PROT_WRITE, PROT_EXEC = 1, 2, 4
+
+    @staticmethod
+    def mmap(*a, **kw):
+        return _Buf()
+
+
+class _VoidP:
+    @staticmethod
+    def from_buffer(buf):
+        return buf
+
+
 class CtypesShadow:
     c_uint32 = GhostU32
+    c_void_p = _VoidP
+    c_size_t = c_int = object
 
     @staticmethod
     def byref(o):
         return _Ref(o)
 
+    @staticmethod
+    def addressof(o):
+        return Machine.cur.base
 
-class GhostRegister:
-    """MXCSRRegister without __init__ (no mmap/mprotect): the two thunks act on the ghost state M"""
+    @staticmethod
+    def POINTER(t):
+        return ("ptr", t)
 
-    def __init__(self, cls_ns, M):
-        self.M = M
-        self.writes = []
-        self._ns = cls_ns
+    @staticmethod
+    def CFUNCTYPE(restype, *argtypes):
+        return lambda addr: Machine.cur.thunk(addr)
 
-    def _get_mxcsr(self, ref):
-        ref.obj.value = self.M
+    @staticmethod
+    def get_errno():
+        return 0
 
-    def _set_mxcsr(self, ref):
-        self.M = ref.obj.value
-        self.writes.append(self.M)
+    class _Lib:
+        class _MP:
+            argtypes = None
+            restype = None
 
-    def get_mxcsr(self):
-        return self._ns["get_mxcsr"](self)
+            def __call__(self, addr, size, prot):
+                Machine.cur.protected = prot == (MmapShadow.PROT_READ | MmapShadow.PROT_EXEC)
+                return 0
 
-    def set_mxcsr(self, val):
-        return self._ns["set_mxcsr"](self, val)
+        def __init__(self):
+            self.mprotect = CtypesShadow._Lib._MP()
 
-    def __call__(self, FZ=None, DAZ=None, RN=None):
-        return self._ns["__call__"](self, FZ=FZ, DAZ=DAZ, RN=RN)
+    @staticmethod
+    def CDLL(*a, **kw):
+        return CtypesShadow._Lib()
 
 
 def load():
+    """the REAL class body re-created over a shadow namespace (ctypes / mmap replaced by the ghost machine);
+    __init__ runs for real, so whatever it sets up is there"""
     import functional_algorithms.fpu as F
 
-    g = reglobal(F, extra=dict(ctypes=CtypesShadow))
+    g = reglobal(F, extra=dict(ctypes=CtypesShadow, mmap=MmapShadow))
     ns = {}
-    for name in ("get_mxcsr", "set_mxcsr", "__call__"):
-        f = F.MXCSRRegister.__dict__[name]
-        ns[name] = types.FunctionType(f.__code__, g, name, f.__defaults__, f.__closure__)
-    return F, g, ns
+    for name, obj in F.MXCSRRegister.__dict__.items():
+        if isinstance(obj, types.FunctionType):
+            ns[name] = types.FunctionType(obj.__code__, g, name, obj.__defaults__, obj.__closure__)
+        elif isinstance(obj, property):
+            ns[name] = property(types.FunctionType(obj.fget.__code__, g, name))
+        elif isinstance(obj, staticmethod):
+            ns[name] = staticmethod(lambda: True)
+    cls = type("MXCSRRegister", (), ns)
+    return F, g, cls
+
+
+def GhostRegister(cls, M):
+    Machine.cur = m = Machine(M)
+    r = cls()
+    r._machine = m
+    return r
 
 
 def mask_value(FZ, DAZ, RN):
@@ -122,6 +196,7 @@ def cname(FZ, DAZ, RN):
 def build(tier):
     rep = core.Report(PROP, tier)
     F, g, ns = load()
+    MACH = lambda r: r._machine  # noqa
     rep.trust("z3 5.1 bit-vector theory", "Python `with` / contextlib.ContextDecorator semantics: __exit__ is called exactly once after __enter__ returned, on normal and exceptional exit, and a falsy return re-raises")
     rep.assume(
         "hardware: ldmxcsr/stmxcsr write/read the MXCSR of the calling thread, and SSE arithmetic observes it (the last clause of the statement is NOT decided here)",
@@ -142,10 +217,18 @@ def build(tier):
     set_ok = any(c[:4] == b"\x0f\xae\x17\xc3" for c in consts)
     get_ok = any(c[:4] == b"\x0f\xae\x1f\xc3" for c in consts)
     same_len = len({len(c) for c in consts if c[:2] == b"\x0f\xae"}) == 1
+    try:
+        r0 = GhostRegister(ns, 0x1F80)
+        init_ok = r0._machine.protected and r0.get_mxcsr().value == 0x1F80
+        init_detail = dict(page=bytes(r0._machine.page).hex(), protected=r0._machine.protected)
+    except Exception as e:  # noqa
+        init_ok, init_detail = False, dict(raised=repr(e))
+    rep.add(core.decided("C18/fpu.MXCSRRegister.__init__/thunks-wired", PROP, init_ok, functions=("fpu.MXCSRRegister.__init__",), text="real __init__ on the ghost machine: page made read+exec, _get_mxcsr/_set_mxcsr point at the stmxcsr/ldmxcsr thunks", detail=init_detail))
     rep.add(core.decided("C18/fpu.MXCSRRegister.__init__/thunk-bytes", PROP, set_ok and get_ok and same_len, functions=("fpu.MXCSRRegister.__init__",), text="byte strings are `0F AE 17 C3` (ldmxcsr [rdi]; ret) and `0F AE 1F C3` (stmxcsr [rdi]; ret); second thunk starts at len(first)", detail=dict(consts=[c.hex() for c in consts])))
 
     M0 = z3.BitVec("M0", W)  # register when the context object is created
     M1 = z3.BitVec("M1", W)  # register when it is entered (an arbitrary other value: contexts may be created ahead)
+    M2 = z3.BitVec("M2", W)  # register at some point inside the body (nested contexts)
 
     # --- get/set
     def run_gs(e):
@@ -155,7 +238,7 @@ def build(tier):
         v = r.get_mxcsr()
         got = v.value
         r.set_mxcsr(GhostU32(SymInt(M1)))
-        return got, r.M, isinstance(v, GhostU32)
+        return got, r._machine.M, isinstance(v, GhostU32)
 
     for p in explore(run_gs, int_width=W):
         if p.exc is not None:
@@ -174,22 +257,30 @@ def build(tier):
             def run(e, FZ=FZ, DAZ=DAZ, RN=RN, exc_case=exc_case):
                 e.assume(in_u32(M0))
                 e.assume(in_u32(M1))
+                e.assume(in_u32(M2))
                 r = GhostRegister(ns, SymInt(M0))
+                mach = r._machine
                 c = r(FZ=FZ, DAZ=DAZ, RN=RN)  # created while the register holds M0
                 desired = c.desired_state.value if hasattr(c, "desired_state") and not callable(c.desired_state) else None
-                r.M = SymInt(M1)  # ... time passes: other contexts are entered; the register now holds M1
-                del r.writes[:]
+                mach.M = SymInt(M1)  # ... time passes: other contexts are entered; the register now holds M1
+                del mach.writes[:]
                 enter_ret = c.__enter__()
-                M_in = r.M
+                M_in = mach.M
                 saved_in = c.saved_state.value if c.saved_state is not None else None
-                n_writes_enter = len(r.writes)
-                # body: arbitrary, restores the register (induction hypothesis of the nesting lemma)
+                n_writes_enter = len(mach.writes)
+                # body: arbitrary nested contexts of the same register; they read the register, change it to any
+                # value M2 and restore it (induction hypothesis of the nesting lemma)
+                mach.M = SymInt(M2)
+                r.get_mxcsr()
+                r.FZ, r.DAZ
+                r(FZ=True)  # creating (not entering) another context reads the register too
+                mach.M = M_in
                 if exc_case == "normal":
                     ret = c.__exit__(None, None, None)
                 else:
                     ex = ValueError("boom")
                     ret = c.__exit__(ValueError, ex, None)
-                return dict(desired=desired, M_in=M_in, saved_in=saved_in, M_out=r.M, ret=ret, saved_after=c.saved_state, enter_ret=enter_ret, n_writes_enter=n_writes_enter)
+                return dict(desired=desired, M_in=M_in, saved_in=saved_in, M_out=mach.M, ret=ret, saved_after=c.saved_state, enter_ret=enter_ret, n_writes_enter=n_writes_enter)
 
             paths = explore(run, int_width=W)
             for p in paths:
@@ -255,8 +346,9 @@ def native_replay(o):
     m = o.model or {}
     M0 = (m.get("M0") or {}).get("value", 0x1F80) & 0xFFFFFFFF
     M1 = (m.get("M1") or {}).get("value", 0x9FA0) & 0xFFFFFFFF
+    M2 = (m.get("M2") or {}).get("value", 0xFFFF) & 0xFFFFFFFF
     cell = [M0]
-    reg = object.__new__(F.MXCSRRegister)
+    reg = F.MXCSRRegister()  # the real __init__ (allocates the real thunks); the register cell is software
 
     def _get(ref):
         ref._obj.value = cell[0]
@@ -270,9 +362,13 @@ def native_replay(o):
     info = dict(M_created=hex(M0), M_entry=hex(M1), mask=hex(mask))
     try:
         c = reg(FZ=meta["FZ"], DAZ=meta["DAZ"], RN=meta["RN"])
+        desired0 = getattr(getattr(c, "desired_state", None), "value", None)
         cell[0] = M1
         c.__enter__()
         inside = cell[0]
+        cell[0] = M2  # body: nested contexts read and change the register, then restore it
+        reg.get_mxcsr(), reg.FZ, reg.DAZ, reg(FZ=True)
+        cell[0] = inside
         if meta.get("exc_case") == "exception":
             ret = c.__exit__(ValueError, ValueError("boom"), None)
         else:
@@ -281,8 +377,10 @@ def native_replay(o):
         info.update(inside=hex(inside), after=hex(after), exit_returned=repr(ret))
         bad_enter = ((inside ^ M1) & ~mask & 0xFFFFFFFF) != 0 or (inside & mask) != val
         bad_exit = after != M1 or bool(ret)
-        info["replayed"] = bool(bad_enter or bad_exit)
-        info["witness_class"] = "entry-not-from-entry-value" if bad_enter else ("exit-not-restored" if bad_exit else None)
+        bad_call = desired0 is not None and desired0 != ((M0 & ~mask & 0xFFFFFFFF) | val) and "/call/" in o.id
+        info["desired_at_creation"] = hex(desired0) if desired0 is not None else None
+        info["replayed"] = bool(bad_enter or bad_exit or bad_call)
+        info["witness_class"] = "entry-not-from-entry-value" if bad_enter else ("exit-not-restored" if bad_exit else ("call-bit-update" if bad_call else None))
     except Exception as e:
         info.update(replayed=True, raised=repr(e), witness_class="raises")
     return info
